@@ -1,5 +1,6 @@
 from contextlib import suppress
 from inspect import signature
+from types import SimpleNamespace
 import copy
 
 import numpy as np
@@ -136,7 +137,6 @@ class BoundConstraints:
         self.m = np.count_nonzero(self.xl > -np.inf) + np.count_nonzero(
             self.xu < np.inf
         )
-        self.pcs = PreparedConstraint(bounds, np.ones(bounds.lb.size))
 
     @property
     def xl(self):
@@ -184,7 +184,11 @@ class BoundConstraints:
         if self.is_feasible:
             return np.array([0])
         else:
-            return self.pcs.violation(x)
+            pcs = PreparedConstraint(
+                Bounds(self.xl, self.xu),
+                np.ones(self.xl.size),
+            )
+            return pcs.violation(x)
 
     def project(self, x):
         """
@@ -705,7 +709,10 @@ class Problem:
         # Set the bound constraints.
         self._orig_bounds = bounds
         self._bounds = BoundConstraints(
-            Bounds(bounds.xl[~self._fixed_idx], bounds.xu[~self._fixed_idx])
+            SimpleNamespace(
+                lb=bounds.xl[~self._fixed_idx],
+                ub=bounds.xu[~self._fixed_idx],
+            )
         )
 
         # Set the initial guess.
@@ -738,7 +745,7 @@ class Problem:
             self._scaling_factor = 0.5 * (self._bounds.xu - self._bounds.xl)
             self._scaling_shift = 0.5 * (self._bounds.xu + self._bounds.xl)
             self._bounds = BoundConstraints(
-                Bounds(-np.ones(self.n), np.ones(self.n))
+                SimpleNamespace(lb=-np.ones(self.n), ub=np.ones(self.n))
             )
             b_eq = self._linear.b_eq - self._linear.a_eq @ self._scaling_shift
             self._linear = LinearConstraints(
